@@ -2,7 +2,7 @@
 use crate::common::*;
 use crate::conv_common::*;
 use palette::cast::{from_array, into_array};
-use palette::chromatic_adaptation::{adaptation_matrix, AdaptFromUnclamped};
+use palette::chromatic_adaptation::{adaptation_matrix, AdaptFromUnclamped, AdaptIntoUnclamped};
 use palette::convert::{Convert, FromColorUnclamped};
 use palette::encoding::{self, Linear};
 use palette::lms::matrix::{Bradford, UnitMatrix, VonKries};
@@ -59,6 +59,35 @@ macro_rules! adapt_one { ($t:ty, $i:ty, $o:ty, $m:ty, $out:expr, $rng:expr, $ina
     out.count("cls:adapt-pair");
     }
     one($out, $rng, $iname, $oname, $mname);
+}} }
+
+
+/// the adaptation entry points of the traits against the matrix of `adaptation_matrix` (a subset of the white point pairs: the traits
+/// are generic, the shortcut a mutant might add is per pair)
+macro_rules! adapt_entry { ($t:ty, $i:ty, $o:ty, $m:ty, $out:expr, $iname:expr, $oname:expr, $mname:expr) => {{
+    // (equal white points: the traits return the colour itself, bit for bit — checked below; the matrix is M⁻¹·M of 7-digit tables)
+    if $iname != $oname {
+    let fwd = adaptation_matrix::<$t, $i, $o, $m>(None, None);
+    let wi = wp_xyz::<$i>();
+    // every entry point is the same transform: `adapt_from_unclamped_with::<M>`, `adapt_into_unclamped_with::<M>` and (Bradford being the
+    // documented default) `adapt_from_unclamped` / `adapt_into_unclamped` equal the matrix of `adaptation_matrix` applied to the colour
+    {
+        let cols: [[f64; 3]; 3] = [wi, [0.3, 0.4, 0.2], [0.9, 0.1, 0.6]];
+        for c in cols {
+            let ct: [$t; 3] = arr_of(c);
+            let want: [$t; 3] = into_array(fwd.convert(from_array::<Xyz<$i, $t>>(ct)));
+            let a: [$t; 3] = into_array(<Xyz<$o, $t> as AdaptFromUnclamped<Xyz<$i, $t>>>::adapt_from_unclamped_with::<$m>(from_array::<Xyz<$i, $t>>(ct)));
+            let b: [$t; 3] = into_array(<Xyz<$i, $t> as AdaptIntoUnclamped<Xyz<$o, $t>>>::adapt_into_unclamped_with::<$m>(from_array::<Xyz<$i, $t>>(ct)));
+            let close = |p: &[$t; 3], q: &[$t; 3]| (0..3).all(|k| (p[k].to64() - q[k].to64()).abs() <= 8.0 * <$t as Fl>::eps() * (1.0 + q[k].to64().abs()));
+            $out.check(close(&a, &want) && close(&b, &want), &format!("adapt-entry-points:{}:{}", $mname, <$t as Fl>::TAG), || format!("{} -> {}: {:?}: matrix {:?}, adapt_from_unclamped_with {:?}, adapt_into_unclamped_with {:?}", $iname, $oname, ct, want, a, b));
+            if $mname == "Bradford" {
+                let d: [$t; 3] = into_array(<Xyz<$o, $t> as AdaptFromUnclamped<Xyz<$i, $t>>>::adapt_from_unclamped(from_array::<Xyz<$i, $t>>(ct)));
+                let e: [$t; 3] = into_array(<Xyz<$i, $t> as AdaptIntoUnclamped<Xyz<$o, $t>>>::adapt_into_unclamped(from_array::<Xyz<$i, $t>>(ct)));
+                $out.check(close(&d, &want) && close(&e, &want), &format!("adapt-entry-points-default:{}", <$t as Fl>::TAG), || format!("{} -> {}: {:?}: Bradford matrix {:?}, adapt_from_unclamped {:?}, adapt_into_unclamped {:?}", $iname, $oname, ct, want, d, e));
+            }
+        }
+    }
+    }
 }} }
 
 macro_rules! adapt_case { ( ($out:ident, $rng:ident), $i:ident, $o:ident ) => {{
@@ -202,12 +231,45 @@ macro_rules! luma_gray { ($out:expr, $grays:expr, $s:ty, $sn:expr, $t:ty) => {{
     }
 }} }
 
+/// RGB spaces assembled from parts, `(Primaries, WhitePoint)`: white is that white point, grays are neutral, the two matrices are mutual
+/// inverses (red, green, blue come back) — for built-in primaries under their own and under other white points
+macro_rules! tuple_space { ($out:expr, $p:ty, $w:ty, $name:expr, $t:ty) => {{
+    type S = Linear<($p, $w)>;
+    let tag = format!("{}:{}", $name, <$t as Fl>::TAG);
+    let wp = wp_xyz::<$w>();
+    let tol = if <$t as Fl>::TAG == "f32" { 4e-6 } else { 1e-6 };
+    let white: [$t; 3] = into_array(Xyz::<$w, $t>::from_color_unclamped(from_array::<Rgb<S, $t>>(arr_of([1.0, 1.0, 1.0]))));
+    let e = (0..3).map(|k| (white[k].to64() - wp[k]).abs()).fold(0.0, f64::max);
+    $out.check(e <= tol, &format!("tuple-space-white:{}", tag), || format!("white of {} -> {:?}, white point {:?}", $name, white, wp));
+    for g in [0.1, 0.5, 0.9] {
+        let x: [$t; 3] = into_array(Xyz::<$w, $t>::from_color_unclamped(from_array::<Rgb<S, $t>>(arr_of([g, g, g]))));
+        let lab: [$t; 3] = into_array(Lab::<$w, $t>::from_color_unclamped(from_array::<Xyz<$w, $t>>(x)));
+        let tol_ab = if <$t as Fl>::TAG == "f32" { 4e-3 } else { 2e-4 };
+        $out.check(lab[1].to64().abs() <= tol_ab && lab[2].to64().abs() <= tol_ab, &format!("tuple-space-gray-neutral:{}", tag), || format!("gray {} of {} -> Xyz {:?} -> Lab {:?}", g, $name, x, lab));
+    }
+    for c in [[1.0, 0.0, 0.0], [0.0, 1.0, 0.0], [0.0, 0.0, 1.0], [0.2, 0.5, 0.8]] {
+        let a: [$t; 3] = arr_of(c);
+        let back: [$t; 3] = into_array(Rgb::<S, $t>::from_color_unclamped(Xyz::<$w, $t>::from_color_unclamped(from_array::<Rgb<S, $t>>(a))));
+        let e = (0..3).map(|k| (back[k].to64() - c[k]).abs()).fold(0.0, f64::max);
+        $out.check(e <= 10.0 * tol, &format!("tuple-space-matrices-inverse:{}", tag), || format!("{:?} of {} -> Xyz -> {:?}", c, $name, back));
+    }
+    $out.count("cls:tuple-space");
+}} }
+
 pub fn run(tier: &str, seed: u64, dir: &str) {
     let mut out = Out::new("C14", dir);
     let mut rng = Rng::new(seed);
     {
         let (o, r) = (&mut out, &mut rng);
         for_pairs!(adapt_case; (o, r); [A, B, C, D50, D55, D65, D75, E, F2, F7, F11, D50Degree10, D55Degree10, D65Degree10, D75Degree10]; [A, B, C, D50, D55, D65, D75, E, F2, F7, F11, D50Degree10, D55Degree10, D65Degree10, D75Degree10]);
+    }
+    {
+        let o = &mut out;
+        macro_rules! entry_case { ( ($out:ident), $i:ident, $o:ident ) => {{
+            adapt_entry!(f32, $i, $o, Bradford, $out, stringify!($i), stringify!($o), "Bradford"); adapt_entry!(f64, $i, $o, Bradford, $out, stringify!($i), stringify!($o), "Bradford");
+            adapt_entry!(f32, $i, $o, VonKries, $out, stringify!($i), stringify!($o), "VonKries"); adapt_entry!(f64, $i, $o, UnitMatrix, $out, stringify!($i), stringify!($o), "UnitMatrix");
+        }} }
+        for_pairs!(entry_case; (o); [A, D50, D65, E, F2]; [A, D50, D65, E, F2]);
     }
     let grays = if tier == "thorough" { 65536 } else { 1024 };
     macro_rules! std_case { ($s:ty, $n:expr) => { standard_one::<$s, f32>(&mut out, $n, grays); standard_one::<$s, f64>(&mut out, $n, grays); } }
@@ -228,6 +290,12 @@ pub fn run(tier: &str, seed: u64, dir: &str) {
         macro_rules! lboth { ($s:ty, $n:expr) => { luma_gray!(out, lg, $s, $n, f32); luma_gray!(out, lg, $s, $n, f64); } }
         lboth!(encoding::Srgb, "Srgb"); lboth!(encoding::Rec709, "Rec709"); lboth!(encoding::Rec2020, "Rec2020"); lboth!(encoding::AdobeRgb, "AdobeRgb"); lboth!(encoding::DisplayP3, "DisplayP3");
         lboth!(encoding::DciP3, "DciP3"); lboth!(encoding::ProPhotoRgb, "ProPhotoRgb"); lboth!(Linear<D50>, "Linear<D50>"); lboth!(Linear<A>, "Linear<A>"); lboth!(Linear<E>, "Linear<E>"); lboth!(Linear<F11>, "Linear<F11>");
+    }
+    // RGB spaces assembled from (primaries, white point)
+    {
+        macro_rules! tboth { ($p:ty, $w:ty, $n:expr) => { tuple_space!(out, $p, $w, $n, f32); tuple_space!(out, $p, $w, $n, f64); } }
+        tboth!(encoding::Srgb, D65, "(Srgb, D65)"); tboth!(encoding::Srgb, D50, "(Srgb, D50)"); tboth!(encoding::AdobeRgb, E, "(AdobeRgb, E)"); tboth!(encoding::Rec2020, D50, "(Rec2020, D50)");
+        tboth!(encoding::DisplayP3, A, "(DisplayP3, A)"); tboth!(encoding::ProPhotoRgb, D50, "(ProPhotoRgb, D50)"); tboth!(encoding::ProPhotoRgb, D65, "(ProPhotoRgb, D65)");
     }
     // back from every colorimetric space to equal RGB components
     {
